@@ -913,7 +913,7 @@ def main():
     chk.cov["history_leg"] = {"histories": len(hreqs), "vacuous(some source does not compile under its configuration)": hvac, "problems": len(hbad),
                               "sample": hreqs[0]["history"] if hreqs else None}
     # ---------------- leg 2b: the same programs with blocks and self.name() calls (engine only) ------------
-    nb = len(progs) if chk.thorough else min(len(progs), 2000)
+    nb = min(len(progs), 100000) if chk.thorough else min(len(progs), 2000)
     bprogs = []
     for body, ctx in progs[:nb]:
         bb = block_mutation(body, chk.rng)
